@@ -4,6 +4,15 @@ import json, os, subprocess
 HERE = os.path.dirname(os.path.abspath(__file__))
 
 CHECKS = {
+ "C10": dict(cat="fault_enumeration", tech="runtime monitoring / fault catalogue: exhaustive product declaration context x write form x write context, real compiler run on each program; rejection, diagnostic position and a run sentinel observed; accepted writes additionally print the constant",
+   text="The whole product (33 read-only declaration contexts x 35 write forms x 9 write contexts, filtered by applicability tables written as data; ~2200 programs plus non-const twins and controls) is compiled and run: every program must be rejected at compile time with a diagnostic on the write's line and must not print the sentinel; controls show the base is accepted and prints the initializer. Exhaustive in both tiers.",
+   note="Trusted: the applicability tables (reviewed against grammar.pest); names imported with `import x from m` are local copies by the repository's own test (assignments::not_import_const_bypass), so writes to them are accepted and only `m.x` is asserted unchanged.", ref="§3 C10"),
+ "C12": dict(cat="exploration", tech="runtime monitoring: enumerated product of optional constructs, stdout/exit/error position compared with a value-level model; logging fallbacks make non-evaluation observable",
+   text="The product carried type x holder (variable, parameter, result, list element, field, map lookup, literal) x nil/present x construct (== nil, != nil, == v, get, or, ?=) x position (statement, if, while, operand) x depth (same scope, block, closure) is enumerated completely (15336 cells) and each cell's output compared with the model; `get nil` must stop with the interpreter error naming the get's line and a column inside it; thorough adds seeded multi-optional programs.",
+   note="Trusted: models/optionals.py; cells the compiler rejects by design (bool?/list?/class? == T, `a ?= nil`) are verified rejected and excluded.", ref="§3 C12"),
+ "C13": dict(cat="exploration", tech="runtime monitoring: operation histories over aliased lists/maps, printed contents after every step compared with a sequence / finite-map model with aliasing",
+   text="A deterministic catalogue (every list/map method x empty/singleton/pair/triple x boundary indices -1,0,len-1,len,len+1 x element types int/str/int?/[int...]; nested lists, parameter aliases, callbacks with side effects) and seeded random histories (<= 12 operations over <= 3 containers and their aliases) are executed; after every step len and contents of every alias are printed and compared with the model; out-of-range operations must stop the program, in-range ones must succeed.",
+   note="Trusted: models/containers.py; keys/values/pairs compared as multisets; join's argument is treated as consumed; callbacks mutating the traversed list are recorded, not judged.", ref="§3 C13"),
  "C03": dict(cat="fault_enumeration", tech="runtime monitoring / fault injection: every typed site of generated well-typed programs x a fixed catalogue of type-breaking edits, real compiler run on each mutant; exit class, diagnostic position and a run sentinel are observed",
    text="Accepted-and-clean programs of the type-directed generator record their typed sites (initializer, re-assignment, argument, argument count, return, condition, operand, index, indexed value, field, method, callee, loop bound, map key/value, op-assign) in module/function/closure/method/constructor/loop/branch contexts; every applicable fault (wrong type, nil / optional into non-optional, unknown name/field/method, non-callable, non-indexable, surplus/missing argument, non-bool condition, unsupported operand) is applied one at a time, plus a catalogue of whole-program faults. Each mutant must exit 1 (not panic), print a diagnostic naming main.ms:line:col and must not print the sentinel first statement; a sample is cross-checked with the `compile` subcommand (no main.mmm may appear).",
    note="Only edits that are ill-typed under every reading are used (str + any, str * int, numeric kind mixing, int into int? are legal). Bases the compiler rejects are dropped.", ref="§3 C03"),
